@@ -2,8 +2,8 @@
 import gens
 
 ID = "C03"
-LEAN_MODULES = ["LexVerif.Props.C03", "LexVerif.Props.TablesWrite"]
-GEN = ["write_tables"]
+LEAN_MODULES = ["LexVerif.Props.C03", "LexVerif.Props.TablesWrite", "LexVerif.Props.Literals.WriteInteger", "LexVerif.Props.Literals.Util"]
+GEN = ["write_tables", "literals"]
 TRUSTED = [
     "Lean 4.33.0 kernel; axioms of each theorem listed under coverage.theorems",
     "correspondence harness (harness/src/bin/run.rs) and generators (gens.py): differential testing, bounded by generator quality",
